@@ -33,6 +33,7 @@ fn one_unit(u: Unit) -> Program {
         end: if term { End::Implicit } else { End::NoMoreResults },
         ret_err: None,
         probe_cells: false,
+        pull_params: None,
     }
 }
 
@@ -230,7 +231,8 @@ fn gen_c07(r: &mut Rng, _t: Tier, _job: u64) -> Plan {
     }
     let cols_final = unit.cols.clone();
     let sid = 1 + r.below(1000) as u32;
-    let cmds = prep_exec(r, sid, cols_final, one_unit(Unit::Rows(unit)));
+    let mut cmds = prep_exec(r, sid, cols_final, one_unit(Unit::Rows(unit)));
+    sprinkle_exec_flags(r, &mut cmds, 6);
     let mut p = Plan::basic(cmds);
     p.reads = gen_reads(r);
     p.arrival = gen_arrival(r);
@@ -380,6 +382,7 @@ fn gen_c08(r: &mut Rng, _t: Tier, _job: u64) -> Plan {
         );
         fix_long_data(&mut cmds);
     }
+    sprinkle_pulls(r, &mut cmds, 10);
     let mut p = Plan::basic(cmds);
     p.reads = gen_reads(r);
     if r.chance(1, 4) {
@@ -460,14 +463,17 @@ fn col_c09(r: &mut Rng, huge_ok: bool) -> ColSpec {
 }
 
 fn count_c09(r: &mut Rng) -> usize {
-    match r.weighted(&[10, 25, 25, 8, 8, 8, 3]) {
+    match r.weighted(&[10, 25, 25, 8, 8, 8, 3, 6]) {
         0 => 0,
         1 => 1,
         2 => 2 + r.usize_below(8),
         3 => 250,
         4 => 251,
         5 => 252 + r.usize_below(3),
-        _ => 1000,
+        6 => 1000,
+        // counts at which a byte-sized quantity (sequence id, bitmap byte, length byte) comes
+        // back to where it started, and their neighbours
+        _ => *r.pick(&[255usize, 256, 257, 511, 512, 513, 767, 768, 769, 1023, 1024, 1025]),
     }
 }
 
@@ -573,7 +579,7 @@ pub fn c09() -> Simple {
     Simple {
         id: "C09",
         decided_by: "inputs (descriptor lists); schedule axis orthogonal (short writes on large definition blocks)",
-        rule_text: "one run = 1..3 resultset headers / PREPARE replies with 0..1000 descriptors (weighted 0,1,250,251,252,1000), table/column names of 0..70000 bytes incl. non-ASCII, every column type the library can name, random 16-bit flag masks, statement ids over u32 incl. 0 and MAX; oracle: decoded definitions == declared (count, order, table, name, type byte, flag bits), PREPARE_OK id/param count/column count, EOF after each non-empty block. Distinct = plan signature.",
+        rule_text: "one run = 1..3 resultset headers / PREPARE replies with 0..1025 descriptors (weighted 0,1,250,251,252,1000 and 256k-1,256k,256k+1), table/column names of 0..70000 bytes incl. non-ASCII, every column type the library can name, random 16-bit flag masks, statement ids over u32 incl. 0 and MAX; oracle: decoded definitions == declared (count, order, table, name, type byte, flag bits), PREPARE_OK id/param count/column count, EOF after each non-empty block. Distinct = plan signature.",
         quick: 60_000,
         thorough: 1_500_000,
         budget_q: 60,
@@ -588,7 +594,92 @@ pub fn c09() -> Simple {
 // ------------------------------------------------------------------------------------------
 // C10 — statement lifecycle
 
-fn gen_c10(r: &mut Rng, _t: Tier, _job: u64) -> Plan {
+/// A connection on which a large volume of long data (5 x 15 MiB) is abandoned -- sent to
+/// statements that are then closed or re-prepared without being executed -- and which then uses
+/// a statement normally: nothing of the abandoned data may count against (or leak into) it.
+fn gen_c10_abandoned_volume(r: &mut Rng) -> Plan {
+    let mut cmds = Vec::new();
+    let one_param = |r: &mut Rng, id: u32| Cmd {
+        seq: 0,
+        kind: CmdKind::Prepare(Blob::lit(b"p")),
+        act: Act::Prepare(PrepAct::Reply {
+            id,
+            params: vec![gen_col_text(r)],
+            cols: vec![],
+        }),
+    };
+    for round in 0..5u32 {
+        let id = if r.coin() { 7 } else { 7 + round };
+        cmds.push(one_param(r, id));
+        cmds.push(Cmd {
+            seq: 0,
+            kind: CmdKind::LongData {
+                stmt: id,
+                param: 0,
+                data: Blob::Gen {
+                    len: 15 * 1024 * 1024 + r.below(1000) as u32,
+                    salt: r.next() as u32,
+                    ascii: false,
+                },
+            },
+            act: Act::None,
+        });
+        if r.coin() {
+            cmds.push(Cmd {
+                seq: 0,
+                kind: CmdKind::Close(id),
+                act: Act::None,
+            });
+        }
+        // (otherwise the next round re-prepares the id, or it simply stays open)
+    }
+    cmds.push(one_param(r, 7));
+    for _ in 0..2 {
+        let n = 1 + size_tiny(r);
+        cmds.push(Cmd {
+            seq: 0,
+            kind: CmdKind::LongData {
+                stmt: 7,
+                param: 0,
+                data: blob_bytes(r, n),
+            },
+            act: Act::None,
+        });
+    }
+    cmds.push(Cmd {
+        seq: 0,
+        kind: CmdKind::Execute {
+            stmt: 7,
+            flags: 0,
+            iters: 1,
+            block: ParamBlock {
+                bind: Some(vec![(0xfc, 0)]),
+                values: vec![PVal::Skip],
+                raw: None,
+                stale_types: None,
+            },
+        },
+        act: Act::Program(simple_ok_program()),
+    });
+    cmds.push(Cmd {
+        seq: 0,
+        kind: CmdKind::Ping,
+        act: Act::None,
+    });
+    let mut p = Plan::basic(cmds);
+    p.arrival = Arrival::upfront();
+    p.reads = ReadSched {
+        explicit: vec![],
+        cuts: vec![],
+        tail: Tail::Fixed(*r.pick(&[1_048_576u32, 4_000_003])),
+    };
+    p
+}
+
+fn gen_c10(r: &mut Rng, _t: Tier, job: u64) -> Plan {
+    if job % 30_000 == 4_242 {
+        return gen_c10_abandoned_volume(r);
+    }
     let pool = [0u32, 1, u32::MAX, 0x0001_0000];
     let nops = 3 + r.usize_below(28);
     // client-side view: id -> (nparams, types)
@@ -759,6 +850,8 @@ fn gen_c10(r: &mut Rng, _t: Tier, _job: u64) -> Plan {
     for _ in 0..r.below(3) {
         cmds.push(q(b"tail", simple_ok_program()));
     }
+    let mut cmds = cmds;
+    sprinkle_pulls(r, &mut cmds, 10);
     finish_plan(r, cmds)
 }
 
@@ -766,7 +859,7 @@ pub fn c10() -> Simple {
     Simple {
         id: "C10",
         decided_by: "histories (refinement against the reference statement registry)",
-        rule_text: "one run = 3..30 operations over a pool of 4 statement ids (incl. 0 and u32::MAX): PREPARE(ok with chosen id and parameter count | error), EXECUTE, SEND_LONG_DATA, CLOSE (also of never-prepared ids), re-PREPARE of a live id with another parameter count, in half of the runs one operation on a dead/unknown id followed by ordinary commands; oracle: callback log == model's (no callback for the illegal operation or anything after it, on_close exactly once per CLOSE, no bytes for CLOSE/LONG_DATA), run_on returns Err for the illegal operation, after re-PREPARE the next EXECUTE sees the new parameter count and no stale long data. Distinct = plan signature.",
+        rule_text: "one run = 3..30 operations over a pool of 4 statement ids (incl. 0 and u32::MAX): PREPARE(ok with chosen id and parameter count | error), EXECUTE, SEND_LONG_DATA, CLOSE (also of never-prepared ids), re-PREPARE of a live id with another parameter count, in half of the runs one operation on a dead/unknown id followed by ordinary commands; one job in 30 000 abandons 75 MiB of long data (statements closed / re-prepared without execution) before using a statement normally; oracle: callback log == model's (no callback for the illegal operation or anything after it, on_close exactly once per CLOSE, no bytes for CLOSE/LONG_DATA), run_on returns Err for the illegal operation, after re-PREPARE the next EXECUTE sees the new parameter count and no stale long data. Distinct = plan signature.",
         quick: 300_000,
         thorough: 8_000_000,
         budget_q: 60,
@@ -840,6 +933,7 @@ fn gen_c13_plan(r: &mut Rng, kind: u16) -> Plan {
                     end: End::Error { kind, msg },
                     ret_err: None,
                     probe_cells: false,
+                    pull_params: None,
                 },
             ));
         }
@@ -864,6 +958,7 @@ fn gen_c13_plan(r: &mut Rng, kind: u16) -> Plan {
                     end: End::Error { kind, msg },
                     ret_err: None,
                     probe_cells: false,
+                    pull_params: None,
                 },
             ));
         }
@@ -1085,6 +1180,7 @@ fn gen_c14(r: &mut Rng, _t: Tier, _job: u64) -> Plan {
             end: if r.coin() { End::NoMoreResults } else { End::Implicit },
             ret_err: None,
             probe_cells: false,
+            pull_params: None,
         };
         if prog.end == End::Implicit {
             if let Some(Unit::Rows(ru)) = prog.units.last_mut() {
@@ -1123,7 +1219,64 @@ pub fn c14() -> Simple {
 // ------------------------------------------------------------------------------------------
 // C16 — bound types persist per statement
 
-fn gen_c16(r: &mut Rng, _t: Tier, _job: u64) -> Plan {
+/// Many statements open at once (a client-side statement cache that never closes anything):
+/// statement 1 binds its types, hundreds or thousands of other statements are prepared (some
+/// executed), then statement 1 is executed again without types.
+fn gen_c16_many_open(r: &mut Rng) -> Plan {
+    let n = *r.pick(&[260usize, 520, 1030, 1100, 2050, 4100]);
+    let mut cmds = Vec::new();
+    let prep = |id: u32, np: usize| Cmd {
+        seq: 0,
+        kind: CmdKind::Prepare(Blob::lit(b"p")),
+        act: Act::Prepare(PrepAct::Reply {
+            id,
+            params: (0..np)
+                .map(|_| ColSpec {
+                    table: Blob::lit(b""),
+                    name: Blob::lit(b"?"),
+                    coltype: 0xfd,
+                    flags: 0,
+                })
+                .collect(),
+            cols: vec![],
+        }),
+    };
+    let exec = |id: u32, bind: Option<Vec<(u8, u8)>>, v: i64| Cmd {
+        seq: 0,
+        kind: CmdKind::Execute {
+            stmt: id,
+            flags: 0,
+            iters: 1,
+            block: ParamBlock {
+                bind,
+                values: vec![PVal::Int(v)],
+                raw: None,
+                stale_types: None,
+            },
+        },
+        act: Act::Program(simple_ok_program()),
+    };
+    let ty = *r.pick(&[(0x01u8, 0u8), (0x02, 0), (0x03, 0x80), (0x08, 0)]);
+    cmds.push(prep(1, 1));
+    cmds.push(exec(1, Some(vec![ty]), 77));
+    cmds.push(exec(1, None, -3));
+    for i in 0..n as u32 {
+        cmds.push(prep(10 + i, 1));
+        if i % 97 == 5 {
+            cmds.push(exec(10 + i, Some(vec![(0x08, 0)]), i as i64));
+        }
+    }
+    cmds.push(exec(1, None, 0x1234));
+    cmds.push(exec(10 + 5, None, 9));
+    let mut p = Plan::basic(cmds);
+    p.arrival = if r.coin() { Arrival::upfront() } else { Arrival::lockstep() };
+    p
+}
+
+fn gen_c16(r: &mut Rng, _t: Tier, job: u64) -> Plan {
+    if job % 4_000 == 1_313 {
+        return gen_c16_many_open(r);
+    }
     let ns = 2 + r.usize_below(3);
     let mut cmds = Vec::new();
     let mut st: Vec<(u32, usize, Option<Vec<(u8, u8)>>)> = Vec::new();
@@ -1245,6 +1398,8 @@ fn gen_c16(r: &mut Rng, _t: Tier, _job: u64) -> Plan {
             act: Act::Program(simple_ok_program()),
         });
     }
+    let mut cmds = cmds;
+    sprinkle_pulls(r, &mut cmds, 10);
     finish_plan(r, cmds)
 }
 
@@ -1458,6 +1613,8 @@ fn gen_c17(r: &mut Rng, t: Tier, job: u64) -> Plan {
             });
         }
     }
+    let mut cmds = cmds;
+    sprinkle_pulls(r, &mut cmds, 10);
     finish_plan(r, cmds)
 }
 
